@@ -131,7 +131,7 @@ Definition w_reduce_empty := mk FReduce 0 0 P0 (SList []) SNil None None None TD
 Definition w_reduce_start := mk FReduce 0 0 P0 (SList [1;2;3]) SNil (Some 3%nat) None None TDefault CAbsent false.
 Definition w_reduce_start_init :=
   mkCall FReduce 0 0 P0 (SList [1;2;3]) SNil (Some 3%nat) None false None None None TDefault CAbsent false BAdd (Some 7) 1 false TrT.
-(* (remove-duplicates '(1 2 1) :test '/=) => (1 1); (remove-duplicates '(1 2 3) :test '< :from-end t) => (1 2 3) *)
+(* (remove-duplicates '(1 2 1) :test '/=) => (1) (repaired: was (1 1)); (remove-duplicates '(1 2 3) :test '< :from-end t) => (1 2 3) *)
 Definition w_dups_ne := mk FRemoveDuplicates 0 0 P0 (SList [1;2;1]) SNil None None None (TTest TNe) CAbsent false.
 Definition w_dups_from_end := mk FRemoveDuplicates 0 0 P0 (SList [1;2;3]) SNil None None None (TTest TLt) CAbsent true.
 
@@ -143,7 +143,7 @@ Definition refutation_witnesses : list call :=
   [w_remove_if_not; w_find_if_not; w_test_not; w_subst_test_not; w_setdiff_test_not;
    w_mismatch_from_end;
    w_fill_end; w_fill_start;
-   w_reduce_empty; w_reduce_start; w_dups_ne; w_dups_from_end].
+   w_reduce_empty; w_reduce_start; w_dups_from_end].
 
 Lemma all_refuted : forallb refutes refutation_witnesses = true.
 Proof. vm_compute. reflexivity. Qed.
@@ -164,7 +164,7 @@ Definition repaired_witnesses : list (call * res) :=
     (w_mismatch_start, RInt 2); (w_replace_end, RSeq [9;9;3]);
     (w_reduce_start_init, RElt 7); (w_some_value, RElt 2); (w_assoc_order, RSeq [2;0]);
     (w_merge_tie, RSeq [-1;1]); (w_subst_count, RSeq [0;9;0;1]); (w_subst_count0, RSeq [1;1]);
-    (w_subst_count_neg, RSeq [1;1]) ].
+    (w_subst_count_neg, RSeq [1;1]); (w_dups_ne, RSeq [1]) ].
 Definition repaired_ok (cr : call * res) : bool :=
   in_domain (fst cr) &&
   match m_call (fst cr), s_call (fst cr) with
@@ -271,8 +271,8 @@ Lemma fill_end_refuted : refutes w_fill_end = true /\ refutes w_fill_start = tru
 Proof. vm_compute. split; reflexivity. Qed.
 Lemma reduce_refuted : refutes w_reduce_empty = true /\ refutes w_reduce_start = true.
 Proof. vm_compute. split; reflexivity. Qed.
-Lemma remove_duplicates_refuted : refutes w_dups_ne = true /\ refutes w_dups_from_end = true.
-Proof. vm_compute. split; reflexivity. Qed.
+Lemma remove_duplicates_refuted : refutes w_dups_from_end = true.
+Proof. vm_compute. reflexivity. Qed.
 Lemma guard_nonvacuous : forallb in_domain ex_calls = true /\
   map m_call ex_calls =
   [ Some (RElt 1); Some (RInt 4); Some (RInt 3); Some (RSeq [1;0;2;1]); Some (RSeq [0;1;7;2]); Some (RSeq [1;-2]);
